@@ -186,3 +186,217 @@ Definition wf_tracks (ts : list track) : bool := forallb wf_track ts.
 
 (* sample counts are uint32 *)
 Definition small_tracks (ts : list track) : bool := forallb (fun t => t_nsamples t <? 4294967296) ts.
+
+(* chosen sync samples of the reference track have non-zero duration (guard of C11_video_starts_sync) *)
+Definition nonzero_dur_syncs (rt : track) (sps : list sync_point) : bool :=
+  forallb (fun sp => match get_decode_time (t_stts rt) (sp_nr sp) with
+                     | Ok (_, d) => negb (d =? 0)
+                     | _ => false
+                     end) (tl sps).
+
+(* ================================================================== fragmented side *)
+(* mp4.FullSample: what the property says must be conserved.  fs_data stands for Size + Data. *)
+Record fsample := mkFS { fs_dts : N; fs_dur : N; fs_cto : Z; fs_flags : N; fs_data : list N }.
+
+(* func (s *Sample) IsSync(): !SampleIsNonSync && SampleDependsOn == 2 *)
+Definition is_sync (s : fsample) : bool :=
+  negb (N.testbit (fs_flags s) 16) && ((fs_flags s / 16777216) mod 4 =? 2).
+
+(* func (s *FullSample) PresentationTime(): clipped at 0 *)
+Definition pres_time (s : fsample) : N :=
+  let p := (Z.of_N (fs_dts s) + fs_cto s)%Z in if (p <? 0)%Z then 0 else Z.to_N p.
+
+(* ------------------------------------------------------------------ examples/resegmenter Resegment *)
+(* addSamplesToFrag(frag, samples, nextSampleNrToWrite, stopNr): samples[nr-1] for next <= nr < stop *)
+Definition slice {A} (all : list A) (next stop : nat) : list A :=
+  firstn (stop - next) (skipn (next - 1) all).
+
+(* `for nr, s := range inSamples`: rest = inSamples[nr:], seq = currOutSeqNr, next = nextSampleNrToWrite.
+   Returns the sample lists of the output segments in order. *)
+Fixpoint reseg_loop (d : N) (all rest : list fsample) (nr : nat) (seq : N) (next : nat)
+  : list (list fsample) :=
+  match rest with
+  | [] => [slice all next (length all + 1)]
+  | s :: t =>
+      if (u64 (d * seq) <=? pres_time s) && is_sync s
+      then slice all next (nr + 1) :: reseg_loop d all t (S nr) (seq + 1) (nr + 1)
+      else reseg_loop d all t (S nr) seq next
+  end.
+
+(* the tool: main.run rejects chunkDur = 0; Resegment indexes inSamples[0] *)
+Definition resegment (d : N) (ss : list fsample) : res (list (list fsample)) :=
+  if d =? 0 then Err
+  else match ss with
+       | [] => Panic
+       | _ => Ok (reseg_loop d ss ss 0 1 1)
+       end.
+
+(* what the property asks of segment number k+1 (k = seq of the segment before it) *)
+Fixpoint segs_start_ok (d k : N) (segs : list (list fsample)) : Prop :=
+  match segs with
+  | [] => True
+  | seg :: t =>
+      match seg with
+      | [] => False
+      | s :: _ => is_sync s = true /\ u64 (d * k) <= pres_time s
+      end /\ segs_start_ok d (k + 1) t
+  end.
+
+(* ------------------------------------------------------------------ MediaSegment.Fragmentify *)
+(* done = outFragments without the fragment `of` points to; cur = the samples of `of` (None = nil) *)
+Definition close_frag (done : list (list fsample)) (cur : option (list fsample)) : list (list fsample) :=
+  match cur with None => done | Some c => done ++ [c] end.
+
+Fixpoint fragmentify_samples (duration : N) (ss : list fsample) (cum : N)
+         (done : list (list fsample)) (cur : option (list fsample))
+  : res (N * list (list fsample) * option (list fsample)) :=
+  match ss with
+  | [] => Ok (cum, done, cur)
+  | s :: t =>
+      let '(done1, cur1) := if cum =? 0 then (close_frag done cur, Some []) else (done, cur) in
+      match cur1 with
+      | None => Panic                          (* of.AddFullSampleToTrack on a nil *Fragment *)
+      | Some c =>
+          let cum1 := u32 (cum + fs_dur s) in  (* cumDur += s.Dur  (uint32) *)
+          fragmentify_samples duration t (if duration <=? cum1 then 0 else cum1) done1 (Some (c ++ [s]))
+      end
+  end.
+
+Fixpoint fragmentify_frags (duration : N) (frags : list (list fsample)) (cum : N)
+         (done : list (list fsample)) (cur : option (list fsample)) : res (list (list fsample)) :=
+  match frags with
+  | [] => Ok (close_frag done cur)
+  | f :: r =>
+      do st <- fragmentify_samples duration f cum done cur;
+      let '(cum1, done1, cur1) := st in
+      fragmentify_frags duration r cum1 done1 cur1
+  end.
+
+Definition fragmentify (duration : N) (frags : list (list fsample)) : res (list (list fsample)) :=
+  fragmentify_frags duration frags 0 [] None.
+
+(* ------------------------------------------------------------------ combine-segs *)
+(* an input fragment as decoded: tfhd defaults, truns with their flag bits and stored per-sample fields *)
+Record trun_in := mkTrunIn {
+  ti_has_dur : bool; ti_has_size : bool; ti_has_flags : bool; ti_has_first_flags : bool;
+  ti_samples : list fsample                     (* fields as stored in the box; absent fields decode as 0 *)
+}.
+Record frag_in := mkFragIn {
+  fi_def_dur : option N; fi_def_size : option N; fi_def_flags : option N;   (* tfhd *)
+  fi_truns : list trun_in
+}.
+Record trex := mkTrex { tx_dur : N; tx_size : N; tx_flags : N }.
+
+(* the size is carried by fs_data in fsample; for the default-value logic it is kept as a separate
+   observable: (sample, size) *)
+Definition pick (own : option N) (tx : option N) : N :=
+  match own with Some v => v | None => match tx with Some v => v | None => 0 end end.
+
+(* func (t *TrunBox) AddSampleDefaultValues(tfhd, trex): i = index in the trun *)
+Fixpoint add_defaults (t : trun_in) (ddur dsize dflags : N) (i : nat) (ss : list (fsample * N))
+  : list (fsample * N) :=
+  match ss with
+  | [] => []
+  | (s, sz) :: r =>
+      let dur := if ti_has_dur t then fs_dur s else ddur in
+      let size := if ti_has_size t then sz else dsize in
+      let flags := if ti_has_flags t then fs_flags s
+                   else if (match i with O => false | _ => true end) || negb (ti_has_first_flags t)
+                        then dflags else fs_flags s in
+      (mkFS (fs_dts s) dur (fs_cto s) flags (fs_data s), size) :: add_defaults t ddur dsize dflags (S i) r
+  end.
+
+(* Fragment.GetFullSamples(trex) restricted to (dur, size, flags): trex = None is combine-segs' call *)
+Definition read_trun (f : frag_in) (tx : option trex) (t : trun_in) (sizes : list N) : list (fsample * N) :=
+  add_defaults t (pick (fi_def_dur f) (option_map tx_dur tx))
+                 (pick (fi_def_size f) (option_map tx_size tx))
+                 (pick (fi_def_flags f) (option_map tx_flags tx)) 0 (combine (ti_samples t) sizes).
+
+Definition trun_indep_of_trex (f : frag_in) (t : trun_in) : bool :=
+  (ti_has_dur t || match fi_def_dur f with Some _ => true | None => false end) &&
+  (ti_has_size t || match fi_def_size f with Some _ => true | None => false end) &&
+  (ti_has_flags t || match fi_def_flags f with Some _ => true | None => false end
+   || (ti_has_first_flags t && (length (ti_samples t) <=? 1)%nat)).
+
+(* the multi-track output fragment: trafs in moof order, each with its tfdt and its truns
+   (writeOrderNr, samples) *)
+Record traf_out := mkTraf { tf_id : N; tf_tfdt : N; tf_truns : list (N * list fsample) }.
+Record frag_out := mkFragOut { fo_trafs : list traf_out; fo_next : N (* nextTrunNr *) }.
+
+(* CreateMultiTrackFragment(seqNr, trackIDs) *)
+Definition create_multi (ids : list N) : frag_out := mkFragOut (map (fun i => mkTraf i 0 []) ids) 0.
+
+(* the body of AddSampleToTrack once the traf is chosen; returns the traf and the new nextTrunNr *)
+Definition add_to_traf (tf : traf_out) (next : N) (s : fsample) : traf_out * N :=
+  let '(truns1, next1) :=
+    match tf_truns tf with
+    | [] => ([(next, [])], next + 1)           (* create first trun *)
+    | _ => (tf_truns tf, next)
+    end in
+  let tfdt1 :=                                 (* len(traf.Truns) == 1 && traf.Trun.SampleCount() == 0 *)
+    match truns1 with
+    | [(_, [])] => fs_dts s
+    | _ => tf_tfdt tf
+    end in
+  match rev truns1 with
+  | [] => (tf, next1)                          (* unreachable: truns1 is not empty *)
+  | (w, l) :: before =>
+      if w =? next1 - 1                        (* trun.writeOrderNr == f.nextTrunNr-1 (uint32, next1 >= 1) *)
+      then (mkTraf (tf_id tf) tfdt1 (rev ((w, l ++ [s]) :: before)), next1)
+      else (mkTraf (tf_id tf) tfdt1 (truns1 ++ [(next1, [s])]), next1 + 1)
+  end.
+
+(* `for _, traf = range f.Moof.Trafs { if traf.Tfhd.TrackID == trackID { break } }`: the first match, else
+   the LAST traf is left in the loop variable; nil only when there is no traf at all *)
+Fixpoint add_in_trafs (tfs : list traf_out) (id next : N) (s : fsample) : option (list traf_out * N) :=
+  match tfs with
+  | [] => None
+  | tf :: r =>
+      if (tf_id tf =? id) || (match r with [] => true | _ => false end)
+      then let '(tf', n') := add_to_traf tf next s in Some (tf' :: r, n')
+      else match add_in_trafs r id next s with
+           | Some (r', n') => Some (tf :: r', n')
+           | None => None
+           end
+  end.
+
+Definition add_sample_to_track (fo : frag_out) (s : fsample) (id : N) : res frag_out :=
+  match add_in_trafs (fo_trafs fo) id (fo_next fo) s with
+  | None => Err
+  | Some (tfs, n) => Ok (mkFragOut tfs n)
+  end.
+
+(* `for _, fs := range fss { _ = outFrag.AddFullSampleToTrack(fs, id) }`: errors are ignored *)
+Definition add_all (fo : frag_out) (id : N) (ss : list fsample) : frag_out :=
+  fold_left (fun st s => match add_sample_to_track st s id with Ok st' => st' | _ => st end) ss fo.
+
+(* combineMediaSegments: tracks in order, ids = newTrackIDs *)
+Definition combine_tracks (ids : list N) (inputs : list (list fsample)) : frag_out :=
+  fold_left (fun st p => add_all st (fst p) (snd p)) (combine ids inputs) (create_multi ids).
+
+(* decode times when reading back: tfdt, then accumulated durations (also across truns) *)
+Fixpoint retime (base : N) (ss : list fsample) : list fsample :=
+  match ss with
+  | [] => []
+  | s :: t => mkFS base (fs_dur s) (fs_cto s) (fs_flags s) (fs_data s) :: retime (base + fs_dur s) t
+  end.
+
+Fixpoint contiguous (base : N) (ss : list fsample) : bool :=
+  match ss with
+  | [] => true
+  | s :: t => (fs_dts s =? base) && contiguous (base + fs_dur s) t
+  end.
+Definition contiguous_list (ss : list fsample) : bool :=
+  match ss with [] => true | s :: _ => contiguous (fs_dts s) ss end.
+
+(* GetFullSamples(trex) for a trex with TrackID id: the first traf with that id, truns in order *)
+Fixpoint read_track (tfs : list traf_out) (id : N) : option (list fsample) :=
+  match tfs with
+  | [] => None
+  | tf :: r => if tf_id tf =? id then Some (retime (tf_tfdt tf) (concat (map snd (tf_truns tf))))
+               else read_track r id
+  end.
+
+(* the write-order layout of the truns (for the correspondence): (trackID, writeOrderNr, sample count) *)
+Definition trun_layout (fo : frag_out) : list (N * N * N) :=
+  concat (map (fun tf => map (fun tr => (tf_id tf, fst tr, lenN (snd tr))) (tf_truns tf)) (fo_trafs fo)).
